@@ -1,11 +1,39 @@
 """C16 facts: the decision logic of Group mode (glom/grouping.py) and of the aggregator
-entry points of glom/reduction.py, statement by statement, as normalised source
-(`ast.unparse`: independent of layout and comments).  `WFSrc` in Glom/Spec/C16Facts.lean
-compares them with the statements the Lean model transcribes.
+entry points of glom/reduction.py, statement by statement, as NORMALISED source, the module-level
+state of grouping.py, and the arithmetic arms of `_t_eval`.  `WFSrc` in Glom/Spec/C16Src.lean
+compares them with the statements the Lean model transcribes (exact equality on the normal form).
+
+The normal form (`ast.unparse` is independent of layout and comments; on top of that, ONLY rewrites
+that preserve what the function does, each one local and syntactic):
+
+  N1  docstrings are dropped;
+  N2  a module-level name bound once to an immutable literal (a constant / a tuple of names and
+      constants) is replaced by that literal;
+  N3  a local one-expression function (`f = lambda a: E` / `def f(a): return E`, bound once, called
+      with plain names) is inlined at its calls;
+  N4  `return _helper(a, b, …)` where `_helper` is a private module-level function whose parameters
+      are exactly `a, b, …` is replaced by the helper's body (a tail call with the same names);
+  N5  `x = A if C else B`  is  `if C: x = A / else: x = B`;
+  N6  `x = M[K] = E`  is  `M[K] = E; x = M[K]`;
+  N7  `try: x = M[K] / except KeyError: M[K] = E; x = M[K]`  is  `if K not in M: M[K] = E` then `x = M[K]`;
+  N8  `x = False; if C: S…; x = True`  (C a comparison / boolean combination of comparisons, x not
+      in S, C)  is  `x = C; if x: S…`;
+  N9  `d.get(k, None)` is `d.get(k)`;
+  N10 `if C: A` whose body ends in return / continue / break / raise, followed by R, is
+      `if C: A / else: R`; an if/else with a negated test (`not`, `not in`, `is not`) is the
+      if/else of the positive test with the branches swapped;
+  N11 a local bound once, at the top level of the function, to a call-free access path
+      (`x = a[b].c`) is replaced by that path, provided nothing later assigns to the path itself, to
+      a proper prefix of it, or to another subscript / attribute of a proper prefix;
+  N12 locals (everything the function assigns, except its parameters) are renamed L0, L1, … in
+      order of first binding.
+
+Anything else is a different normal form and fails the obligation.
 
 Generated file: lean/Glom/Generated/GroupFacts.lean
 """
 import ast
+import copy
 
 
 def _cls(tree, name):
@@ -24,13 +52,409 @@ def _method(cls, name):
     return None
 
 
+# ---------------------------------------------------------------------------- the normal form
+def _is_doc(s):
+    return isinstance(s, ast.Expr) and isinstance(s.value, ast.Constant) and isinstance(s.value.value, str)
+
+
+def _immutable_literal(v):
+    if isinstance(v, ast.Constant):
+        return True
+    if isinstance(v, ast.Tuple):
+        return all(isinstance(e, (ast.Name, ast.Constant)) for e in v.elts)
+    return False
+
+
+def module_constants(tree):
+    """N2: module-level names bound exactly once to an immutable literal"""
+    count, val = {}, {}
+    for n in tree.body:
+        targets = []
+        if isinstance(n, ast.Assign):
+            for t in n.targets:
+                for x in ast.walk(t):
+                    if isinstance(x, ast.Name):
+                        targets.append(x.id)
+            if len(n.targets) == 1 and isinstance(n.targets[0], ast.Name) and _immutable_literal(n.value):
+                val[n.targets[0].id] = n.value
+        elif isinstance(n, (ast.AnnAssign, ast.AugAssign)) and isinstance(n.target, ast.Name):
+            targets.append(n.target.id)
+        elif isinstance(n, (ast.FunctionDef, ast.ClassDef)):
+            targets.append(n.name)
+        for t in targets:
+            count[t] = count.get(t, 0) + 1
+    rebound = set()
+    for n in ast.walk(tree):
+        if isinstance(n, ast.Global):
+            rebound.update(n.names)
+    return {k: v for k, v in val.items() if count.get(k) == 1 and k not in rebound}
+
+
+class _Subst(ast.NodeTransformer):
+    """replace loads of the given names by expressions"""
+    def __init__(self, mapping):
+        self.mapping = mapping
+
+    def visit_Name(self, node):
+        if isinstance(node.ctx, ast.Load) and node.id in self.mapping:
+            return copy.deepcopy(self.mapping[node.id])
+        return node
+
+
+def _assigned_names(fn):
+    """every name the function binds (assignment / for / with / except / nested def), in source order"""
+    out = []
+
+    def add(n):
+        if n not in out:
+            out.append(n)
+
+    class V(ast.NodeVisitor):
+        def visit_Name(self, n):
+            if isinstance(n.ctx, (ast.Store, ast.Del)):
+                add(n.id)
+
+        def visit_Assign(self, n):          # the value is evaluated before the targets are bound
+            self.visit(n.value)
+            for t in n.targets:
+                self.visit(t)
+
+        def visit_ExceptHandler(self, n):
+            if n.name:
+                add(n.name)
+            self.generic_visit(n)
+
+        def visit_FunctionDef(self, n):
+            if n is not fn:
+                add(n.name)
+            self.generic_visit(n)
+    V().visit(fn)
+    return out
+
+
+def _store_count(fn, name):
+    c = 0
+    for n in ast.walk(fn):
+        if isinstance(n, ast.Name) and isinstance(n.ctx, (ast.Store, ast.Del)) and n.id == name:
+            c += 1
+        elif isinstance(n, (ast.FunctionDef, ast.ClassDef)) and n is not fn and n.name == name:
+            c += 1
+    return c
+
+
+def _params(fn):
+    a = fn.args
+    return [x.arg for x in a.posonlyargs + a.args + a.kwonlyargs] + \
+        ([a.vararg.arg] if a.vararg else []) + ([a.kwarg.arg] if a.kwarg else [])
+
+
+def _inline_local_functions(fn):
+    """N3"""
+    defs = {}
+    for s in fn.body:
+        if isinstance(s, ast.Assign) and len(s.targets) == 1 and isinstance(s.targets[0], ast.Name) \
+                and isinstance(s.value, ast.Lambda):
+            lam = s.value
+            if not (lam.args.vararg or lam.args.kwarg or lam.args.kwonlyargs or lam.args.defaults):
+                defs[s.targets[0].id] = (s, [a.arg for a in lam.args.args], lam.body)
+        elif isinstance(s, ast.FunctionDef) and len([b for b in s.body if not _is_doc(b)]) == 1:
+            b = [b for b in s.body if not _is_doc(b)][0]
+            a = s.args
+            if isinstance(b, ast.Return) and b.value is not None and not (
+                    a.vararg or a.kwarg or a.kwonlyargs or a.defaults or s.decorator_list):
+                defs[s.name] = (s, [x.arg for x in a.args], b.value)
+    for name, (stmt, params, body) in list(defs.items()):
+        if _store_count(fn, name) != 1:
+            continue
+        calls = [c for c in ast.walk(fn) if isinstance(c, ast.Call) and isinstance(c.func, ast.Name)
+                 and c.func.id == name]
+        loads = [n for n in ast.walk(fn) if isinstance(n, ast.Name) and n.id == name and isinstance(n.ctx, ast.Load)]
+        if len(loads) != len(calls) or not all(
+                not c.keywords and len(c.args) == len(params) and all(isinstance(x, ast.Name) for x in c.args)
+                for c in calls):
+            continue
+
+        class Inl(ast.NodeTransformer):
+            def visit_Call(self, node):
+                self.generic_visit(node)
+                if isinstance(node.func, ast.Name) and node.func.id == name:
+                    return _Subst(dict(zip(params, node.args))).visit(copy.deepcopy(body))
+                return node
+        fn.body = [Inl().visit(s) for s in fn.body if s is not stmt]
+    return fn
+
+
+def _inline_tail_helpers(body, module, depth=0):
+    """N4"""
+    out = []
+    for s in body:
+        if isinstance(s, ast.Return) and isinstance(s.value, ast.Call) and isinstance(s.value.func, ast.Name) \
+                and s.value.func.id.startswith('_') and not s.value.keywords and depth < 4 \
+                and all(isinstance(a, ast.Name) for a in s.value.args):
+            h = next((n for n in module.body if isinstance(n, ast.FunctionDef) and n.name == s.value.func.id), None)
+            if h is not None and _params(h) == [a.id for a in s.value.args] and not h.decorator_list \
+                    and not (h.args.defaults or h.args.kw_defaults):
+                hb = [copy.deepcopy(x) for x in h.body if not _is_doc(x)]
+                out.extend(_inline_tail_helpers(hb, module, depth + 1))
+                continue
+        if not isinstance(s, (ast.FunctionDef, ast.ClassDef)):
+            for fld in ('body', 'orelse', 'finalbody'):
+                if hasattr(s, fld) and isinstance(getattr(s, fld), list):
+                    setattr(s, fld, _inline_tail_helpers(getattr(s, fld), module, depth))
+            if isinstance(s, ast.Try):
+                for hd in s.handlers:
+                    hd.body = _inline_tail_helpers(hd.body, module, depth)
+        out.append(s)
+    return out
+
+
+def _terminates(body):
+    return bool(body) and isinstance(body[-1], (ast.Return, ast.Continue, ast.Break, ast.Raise))
+
+
+def _boolean_expr(e):
+    if isinstance(e, ast.Compare):
+        return True
+    if isinstance(e, ast.BoolOp):
+        return all(_boolean_expr(v) for v in e.values)
+    if isinstance(e, ast.UnaryOp) and isinstance(e.op, ast.Not):
+        return True
+    return False
+
+
+def _mentions(nodes, name):
+    for n in nodes:
+        for x in ast.walk(n):
+            if isinstance(x, ast.Name) and x.id == name:
+                return True
+    return False
+
+
+def _positive(test):
+    """(positive test, flipped?)"""
+    if isinstance(test, ast.UnaryOp) and isinstance(test.op, ast.Not):
+        return test.operand, True
+    if isinstance(test, ast.Compare) and len(test.ops) == 1:
+        if isinstance(test.ops[0], ast.NotIn):
+            return ast.Compare(test.left, [ast.In()], test.comparators), True
+        if isinstance(test.ops[0], ast.IsNot):
+            return ast.Compare(test.left, [ast.Is()], test.comparators), True
+    return test, False
+
+
+def _orient(s):
+    if s.orelse and s.body:
+        t, flipped = _positive(s.test)
+        if flipped:
+            return ast.If(t, s.orelse, s.body)
+    return s
+
+
+def _rewrite_block(body, n10=True):
+    """N1, N5–N8 (and N10 when asked) on one statement list (recursively)"""
+    for s in body:
+        if isinstance(s, (ast.FunctionDef, ast.ClassDef)):
+            continue
+        for fld in ('body', 'orelse', 'finalbody'):
+            if hasattr(s, fld) and isinstance(getattr(s, fld), list):
+                setattr(s, fld, _rewrite_block(getattr(s, fld), n10))
+        if isinstance(s, ast.Try):
+            for h in s.handlers:
+                h.body = _rewrite_block(h.body, n10)
+    out = []
+    for s in body:
+        if _is_doc(s):
+            continue                                                                             # N1
+        if isinstance(s, ast.Assign) and len(s.targets) == 1 and isinstance(s.value, ast.IfExp):    # N5
+            e = s.value
+            out.extend(_rewrite_block([ast.If(e.test, [ast.Assign([s.targets[0]], e.body, lineno=0)],
+                                              [ast.Assign([copy.deepcopy(s.targets[0])], e.orelse, lineno=0)])], n10))
+            continue
+        if isinstance(s, ast.Assign) and len(s.targets) == 2 and isinstance(s.targets[0], ast.Name) \
+                and isinstance(s.targets[1], ast.Subscript):                                     # N6
+            sub = s.targets[1]
+            load = copy.deepcopy(sub)
+            load.ctx = ast.Load()
+            out.append(ast.Assign([sub], s.value, lineno=0))
+            out.append(ast.Assign([s.targets[0]], load, lineno=0))
+            continue
+        out.append(s)
+    body, out = out, []
+    i = 0
+    while i < len(body):
+        s = body[i]
+        # N7: try: x = M[K] / except KeyError: M[K] = E; x = M[K]
+        if isinstance(s, ast.Try) and not s.orelse and not s.finalbody and len(s.handlers) == 1 \
+                and len(s.body) == 1 and isinstance(s.body[0], ast.Assign) and len(s.body[0].targets) == 1 \
+                and isinstance(s.body[0].targets[0], ast.Name) and isinstance(s.body[0].value, ast.Subscript) \
+                and isinstance(s.handlers[0].type, ast.Name) and s.handlers[0].type.id == 'KeyError' \
+                and s.handlers[0].name is None and len(s.handlers[0].body) == 2:
+            look = s.body[0]
+            h1, h2 = s.handlers[0].body
+            sub = look.value
+            if isinstance(h1, ast.Assign) and len(h1.targets) == 1 and isinstance(h1.targets[0], ast.Subscript) \
+                    and ast.unparse(h1.targets[0]) == ast.unparse(sub) and isinstance(h2, ast.Assign) \
+                    and ast.unparse(h2) == ast.unparse(look):
+                test = ast.Compare(copy.deepcopy(sub.slice), [ast.NotIn()], [copy.deepcopy(sub.value)])
+                out.append(ast.If(test, [h1], []))
+                out.append(look)
+                i += 1
+                continue
+        # N8: x = False; if C: S…; x = True
+        if isinstance(s, ast.Assign) and len(s.targets) == 1 and isinstance(s.targets[0], ast.Name) \
+                and isinstance(s.value, ast.Constant) and s.value.value is False and i + 1 < len(body):
+            x = s.targets[0].id
+            nx = body[i + 1]
+            if isinstance(nx, ast.If) and not nx.orelse and len(nx.body) > 1 and _boolean_expr(nx.test):
+                last = nx.body[-1]
+                if isinstance(last, ast.Assign) and len(last.targets) == 1 and isinstance(last.targets[0], ast.Name) \
+                        and last.targets[0].id == x and isinstance(last.value, ast.Constant) and last.value.value is True \
+                        and not _mentions(nx.body[:-1], x) and not _mentions([nx.test], x):
+                    out.append(ast.Assign([s.targets[0]], nx.test, lineno=0))
+                    out.append(ast.If(ast.Name(x, ast.Load()), nx.body[:-1], []))
+                    i += 2
+                    continue
+        out.append(s)
+        i += 1
+    if not n10:
+        return out
+    # N10: terminating if-bodies swallow the rest; positive tests
+    body, out = out, []
+    for i, s in enumerate(body):
+        if isinstance(s, ast.If):
+            if not s.orelse and _terminates(s.body) and i + 1 < len(body):
+                s.orelse = _rewrite_block(body[i + 1:], True)
+                out.append(_orient(s))
+                return out
+            s = _orient(s)
+        out.append(s)
+    return out
+
+
+class _Get(ast.NodeTransformer):
+    """N9"""
+    def visit_Call(self, node):
+        self.generic_visit(node)
+        if isinstance(node.func, ast.Attribute) and node.func.attr == 'get' and len(node.args) == 2 \
+                and not node.keywords and isinstance(node.args[1], ast.Constant) and node.args[1].value is None:
+            node.args = node.args[:1]
+        return node
+
+
+def _path_prefixes(e):
+    """what a call-free access path depends on: its proper prefixes and the names in its subscripts;
+    None when `e` is not such a path"""
+    pre = []
+    cur = e
+    while True:
+        if isinstance(cur, ast.Subscript):
+            for x in ast.walk(cur.slice):
+                if isinstance(x, (ast.Call, ast.Lambda, ast.Await, ast.Yield, ast.NamedExpr)):
+                    return None
+            for x in ast.walk(cur.slice):
+                if isinstance(x, ast.Name):
+                    pre.append(ast.unparse(x))
+            cur = cur.value
+        elif isinstance(cur, ast.Attribute):
+            cur = cur.value
+        elif isinstance(cur, ast.Name):
+            pre.append(ast.unparse(cur))
+            return pre
+        else:
+            return None
+        pre.append(ast.unparse(cur))
+
+
+def _targets_in(stmts):
+    out = []
+    for s in stmts:
+        for n in ast.walk(s):
+            ts = []
+            if isinstance(n, ast.Assign):
+                ts = n.targets
+            elif isinstance(n, (ast.AugAssign, ast.AnnAssign)):
+                ts = [n.target]
+            elif isinstance(n, ast.Delete):
+                ts = n.targets
+            elif isinstance(n, (ast.For, ast.comprehension)):
+                ts = [n.target]
+            for t in ts:
+                for x in ([t] if not isinstance(t, (ast.Tuple, ast.List)) else t.elts):
+                    out.append(x)
+    return out
+
+
+def _inline_aliases(fn):
+    """N11"""
+    params = set(_params(fn))
+    changed = True
+    while changed:
+        changed = False
+        for i, s in enumerate(fn.body):
+            if not (isinstance(s, ast.Assign) and len(s.targets) == 1 and isinstance(s.targets[0], ast.Name)):
+                continue
+            x = s.targets[0].id
+            if x in params or _store_count(fn, x) != 1 or not isinstance(s.value, (ast.Subscript, ast.Attribute)):
+                continue
+            pre = _path_prefixes(s.value)
+            if pre is None:
+                continue
+            path = ast.unparse(s.value)
+            blocked = _mentions(fn.body[:i], x)
+            for t in _targets_in(fn.body[i + 1:]):
+                ut = ast.unparse(t)
+                if ut == path or ut in pre:
+                    blocked = True
+                if isinstance(t, (ast.Subscript, ast.Attribute)) and ast.unparse(t.value) in pre:
+                    blocked = True
+            if blocked:
+                continue
+            fn.body = fn.body[:i] + [_Subst({x: s.value}).visit(r) for r in fn.body[i + 1:]]
+            changed = True
+            break
+    return fn
+
+
+class _Rename(ast.NodeTransformer):
+    def __init__(self, mapping):
+        self.mapping = mapping
+
+    def visit_Name(self, node):
+        if node.id in self.mapping:
+            return ast.Name(self.mapping[node.id], node.ctx)
+        return node
+
+    def visit_ExceptHandler(self, node):
+        self.generic_visit(node)
+        if node.name in self.mapping:
+            node.name = self.mapping[node.name]
+        return node
+
+
+def normalise(fn, module, consts):
+    fn = copy.deepcopy(fn)
+    fn.body = [s for s in fn.body if not _is_doc(s)]
+    fn.body = _inline_tail_helpers(fn.body, module)
+    fn = _Subst(consts).visit(fn)
+    fn = _inline_local_functions(fn)
+    fn.body = _rewrite_block(fn.body, n10=False)
+    fn = _Get().visit(fn)
+    fn = _inline_aliases(fn)
+    fn.body = _rewrite_block(fn.body, n10=True)
+    params = set(_params(fn))
+    local = [n for n in _assigned_names(fn) if n not in params]
+    fn = _Rename({n: 'L%d' % i for i, n in enumerate(local)}).visit(fn)
+    ast.fix_missing_locations(fn)
+    return fn
+
+
 def _stmts(body, depth=0, out=None):
     """flatten a statement list into (depth, one-line source) rows; compound statements
     contribute their header and then their bodies one level deeper"""
     out = [] if out is None else out
     for s in body:
-        if isinstance(s, ast.Expr) and isinstance(s.value, ast.Constant) and isinstance(s.value.value, str):
-            continue                                   # docstring
+        if _is_doc(s):
+            continue
         if isinstance(s, ast.If):
             out.append((depth, 'if ' + ast.unparse(s.test)))
             _stmts(s.body, depth + 1, out)
@@ -40,16 +464,25 @@ def _stmts(body, depth=0, out=None):
         elif isinstance(s, ast.For):
             out.append((depth, 'for %s in %s' % (ast.unparse(s.target), ast.unparse(s.iter))))
             _stmts(s.body, depth + 1, out)
+            if s.orelse:
+                out.append((depth, 'else'))
+                _stmts(s.orelse, depth + 1, out)
+        elif isinstance(s, ast.While):
+            out.append((depth, 'while ' + ast.unparse(s.test)))
+            _stmts(s.body, depth + 1, out)
         elif isinstance(s, ast.Try):
             out.append((depth, 'try'))
             _stmts(s.body, depth + 1, out)
             for h in s.handlers:
                 out.append((depth, 'except ' + (ast.unparse(h.type) if h.type else '')))
                 _stmts(h.body, depth + 1, out)
+            if s.finalbody:
+                out.append((depth, 'finally'))
+                _stmts(s.finalbody, depth + 1, out)
         elif isinstance(s, ast.Raise):
             out.append((depth, 'raise ' + (ast.unparse(s.exc.func) if isinstance(s.exc, ast.Call) else ast.unparse(s.exc) if s.exc else '')))
         else:
-            out.append((depth, ast.unparse(s)))
+            out.append((depth, ' '.join(ast.unparse(s).split())))
     return out
 
 
@@ -57,35 +490,39 @@ def extract(ctx):
     P = ctx['P']
     grp = ctx['src_tree']('grouping.py')
     red = ctx['src_tree']('reduction.py')
+    gconst, rconst = module_constants(grp), module_constants(red)
     rows = []
 
-    def add(name, fn):
+    def add(name, fn, module, consts, upto_try=False):
         if fn is None:
             P.add('%s not found' % name)
             return
-        for d, src in _stmts(fn.body):
+        if upto_try:
+            fn = copy.deepcopy(fn)
+            body = []
+            for s in fn.body:
+                if isinstance(s, ast.Try):
+                    break
+                body.append(s)
+            fn.body = body
+        try:
+            nf = normalise(fn, module, consts)
+        except Exception as e:          # pragma: no cover
+            P.add('%s: cannot normalise (%r)' % (name, e))
+            return
+        for d, src in _stmts(nf.body):
             rows.append((name, d, src))
 
-    add('Group.glomit', _method(_cls(grp, 'Group'), 'glomit'))
-    add('GROUP', ctx['find_def'](grp, 'GROUP'))
+    add('Group.glomit', _method(_cls(grp, 'Group'), 'glomit'), grp, gconst)
+    add('GROUP', ctx['find_def'](grp, 'GROUP'), grp, gconst)
     for c in ('First', 'Avg', 'Max', 'Min', 'Sample'):
-        add(c + '.agg', _method(_cls(grp, c), 'agg'))
-    add('Limit.glomit', _method(_cls(grp, 'Limit'), 'glomit'))
-    add('Limit.__init__', _method(_cls(grp, 'Limit'), '__init__'))
-    add('Fold._agg', _method(_cls(red, 'Fold'), '_agg'))
-    add('Merge._agg', _method(_cls(red, 'Merge'), '_agg'))
+        add(c + '.agg', _method(_cls(grp, c), 'agg'), grp, gconst)
+    add('Limit.glomit', _method(_cls(grp, 'Limit'), 'glomit'), grp, gconst)
+    add('Limit.__init__', _method(_cls(grp, 'Limit'), '__init__'), grp, gconst)
+    add('Fold._agg', _method(_cls(red, 'Fold'), '_agg'), red, rconst)
+    add('Merge._agg', _method(_cls(red, 'Merge'), '_agg'), red, rconst)
     # the group-mode entry of Fold.glomit: everything before the `try`
-    fg = _method(_cls(red, 'Fold'), 'glomit')
-    if fg is None:
-        P.add('Fold.glomit not found')
-    else:
-        body = []
-        for s in fg.body:
-            if isinstance(s, ast.Try):
-                break
-            body.append(s)
-        for d, src in _stmts(body):
-            rows.append(('Fold.glomit[agg]', d, src))
+    add('Fold.glomit[agg]', _method(_cls(red, 'Fold'), 'glomit'), red, rconst, upto_try=True)
     slots = []
     for c in ('First', 'Avg', 'Max', 'Min', 'Sample', 'Limit'):
         k = _cls(grp, c)
@@ -104,12 +541,18 @@ def extract(ctx):
 
 
 def _module_state(tree):
-    """every module-level binding of grouping.py that is not an import / def / class: (target, value).
-    (Assignments to attributes — `X.__doc__ = …` — are listed with their dotted target.)  The model
-    of Group mode has NO state outside the accumulator tree: a module-level table is state."""
+    """every module-level binding of grouping.py that is not an import / def / class / immutable
+    literal constant: (target, value).  (Assignments to attributes — `X.__doc__ = …` — are not
+    bindings of the module.)  The model of Group mode has NO state outside the accumulator tree: a
+    module-level table (dict / list / set / any call result other than the two sentinels) is state."""
     out = []
     for n in tree.body:
         if isinstance(n, ast.Assign):
+            if len(n.targets) == 1 and isinstance(n.targets[0], ast.Name) and _immutable_literal(n.value):
+                continue
+            if isinstance(n.value, ast.Tuple) and all(isinstance(e, ast.Constant) for e in n.value.elts) \
+                    and all(isinstance(t, ast.Tuple) for t in n.targets):
+                continue                               # a, b = 'x', 'y'
             for t in n.targets:
                 tgt = ast.unparse(t)
                 if tgt.endswith('.__doc__'):
@@ -131,37 +574,72 @@ def _global_stmts(tree):
     return [ast.unparse(n) for n in ast.walk(tree) if isinstance(n, (ast.Global, ast.Nonlocal))]
 
 
+ARITH_OPS = ['+', '-', '*', '#', '/', '%', ':', '&', '|', '^', '~', '_']
+KIND_STMT = {'add': 'cur = cur + arg', 'sub': 'cur = cur - arg', 'mul': 'cur = cur * arg',
+             'floordiv': 'cur = cur // arg', 'truediv': 'cur = cur / arg', 'mod': 'cur = cur % arg',
+             'pow': 'cur = cur ** arg', 'and': 'cur = cur & arg', 'or': 'cur = cur | arg', 'xor': 'cur = cur ^ arg',
+             'invert': 'cur = ~cur', 'neg': 'cur = -cur'}
+
+
+def _shared(name):
+    """a helper of extract/extract_facts.py (the process that loads this module)"""
+    import sys
+    m = sys.modules.get('__main__')
+    if m is not None and hasattr(m, name):
+        return getattr(m, name)
+    import importlib
+    return getattr(importlib.import_module('extract_facts'), name)
+
+
 def _t_arith(ctx, P):
-    """the arithmetic branch of `_t_eval` (glom/core.py): (operator character, statement) per arm of
-    the `if op == '+' … elif op == '_'` chain.  The model computes `cur = cur <op> arg` — a NEW value;
-    an augmented assignment would change the operand (an item of the caller's target) in place."""
+    """the arithmetic branch of `_t_eval` (glom/core.py): (operator character, statement) for each of the
+    twelve op characters, in canonical form.  The model computes `cur = cur <op> arg` — a NEW value; an
+    augmented assignment would change the operand (an item of the caller's target) in place.
+
+    Shape 1: the arm of the `if op == '+' … elif op == '_'` chain, as written (one statement).
+    Shape 2: module-level dispatch tables (`f = TABLE.get(op)` / `cur = f(cur, arg)`), read by the shared
+    helper `table_dispatch` from the LIVE dict of the imported module: an entry that is the function of
+    the `operator` module equivalent to the expression (operator.add is `a + b`, …) is reported as that
+    expression, anything else (operator.iadd, a lambda) as `cur = <other>(…)`, which the obligation
+    rejects."""
     core = ctx['src_tree']('core.py')
     fn = ctx['find_def'](core, '_t_eval')
     if fn is None:
         P.add('_t_eval not found')
         return []
-
-    def is_op_test(test):
-        return (isinstance(test, ast.Compare) and isinstance(test.left, ast.Name) and test.left.id == 'op'
-                and len(test.ops) == 1 and isinstance(test.ops[0], ast.Eq)
-                and isinstance(test.comparators[0], ast.Constant) and isinstance(test.comparators[0].value, str))
-
+    op_chars_of_test = ctx['op_chars_of_test']
+    forms = {}
     for n in ast.walk(fn):
-        if isinstance(n, ast.If) and is_op_test(n.test) and n.test.comparators[0].value == '+':
-            rows = []
-            cur = n
-            while True:
-                if not is_op_test(cur.test):
-                    P.add('_t_eval arithmetic chain: unrecognised test %s' % ast.unparse(cur.test))
-                    return []
-                rows.append((cur.test.comparators[0].value, '; '.join(ast.unparse(b) for b in cur.body)))
-                if len(cur.orelse) == 1 and isinstance(cur.orelse[0], ast.If):
-                    cur = cur.orelse[0]
-                elif not cur.orelse:
-                    break
-                else:
-                    P.add('_t_eval arithmetic chain: unexpected else')
-                    return []
-            return rows
-    P.add('_t_eval arithmetic chain not found')
-    return []
+        if not isinstance(n, ast.If):
+            continue
+        chars = op_chars_of_test(n.test) or []
+        if len(chars) == 1 and chars[0] in ARITH_OPS:
+            forms.setdefault(chars[0], '; '.join(' '.join(ast.unparse(b).split()) for b in n.body))
+    if not forms:
+        try:
+            import glom.core as core_mod
+            table_dispatch = _shared('table_dispatch')
+        except Exception as e:           # pragma: no cover
+            P.add('_t_eval: cannot load the dispatch-table reader (%r)' % (e,))
+            return []
+        for t in ast.walk(fn):
+            if isinstance(t, ast.Try) and any('ArithmeticError' in ast.unparse(h.type) for h in t.handlers if h.type):
+                tbl = table_dispatch(t.body, core_mod, P)
+                if tbl is None:
+                    continue
+                for c, kind in tbl:
+                    if c in forms:
+                        P.add('_t_eval: op %r is in two dispatch tables' % c)
+                        return []
+                    forms[c] = KIND_STMT.get(kind, 'cur = <other>(cur, arg)')
+    extra = sorted(set(forms) - set(ARITH_OPS))
+    if extra:
+        P.add('_t_eval: arithmetic dispatch names op characters that are not arithmetic: %r' % (extra,))
+        return []
+    out = []
+    for c in ARITH_OPS:
+        if c not in forms:
+            P.add('_t_eval: no arm / dispatch-table entry for op %r (arithmetic dispatch not recognised)' % c)
+            return []
+        out.append((c, forms[c]))
+    return out
